@@ -599,7 +599,9 @@ def _run_property(pid, tier, prop, seed, workdir, evid_path, t0):
         if hashes and not any_exe:
             any_exe = build_harness(next(n for n in HARNESS if HARNESS[n].get('kind') != 'script'))
         dist = direct_distinct + (merge_distinct(any_exe, hashes) if hashes else 0)
-        engines.append(dict(harness=st['h'], mode=st['mode'], params=st.get('params', {}), evaluations=ev,
+        eff = dict(st.get('params', {}))
+        eff.update(dict(st.get('common', {}), **st.get(tier, {})).get('params', {}))
+        engines.append(dict(harness=st['h'], mode=st['mode'], params=eff, evaluations=ev,
                             nontrivial=nt, distinct_nontrivial=dist, exhaustive=exh, classes=scls,
                             what=st.get('what', '')))
         total_eval += ev
